@@ -232,7 +232,10 @@ func c12Boundary(cs *pkt.Case, r *rand.Rand) {
 // c12Reuse signs several packets with ONE signer object (what an application does for the
 // segments of an object) and only then serialises and verifies them: a packet must keep verifying
 // after the signer has been used again.
-func c12Reuse(c *h.Ctx, id string, cs *pkt.Case, r *rand.Rand) {
+func c12Reuse(c *h.Ctx, id string, cs *pkt.Case, r *rand.Rand) { c12ReuseAs(c, "C12", id, cs, r) }
+
+// c12ReuseAs reports under property prop (C03 runs it for its clause "decodes to the fields supplied").
+func c12ReuseAs(c *h.Ctx, prop, id string, cs *pkt.Case, r *rand.Rand) {
 	c.Eval(1)
 	k := 2 + r.Intn(3)
 	signer := cs.MakeSigner()
@@ -249,7 +252,7 @@ func c12Reuse(c *h.Ctx, id string, cs *pkt.Case, r *rand.Rand) {
 		var b *pkt.Built
 		var err error
 		if pi := h.Guard(func() { b, err = cj.BuildWith(signer) }); pi != nil {
-			c.Violation("C12:panic:build:"+pi.Frame+":"+pi.Class, id, "packet construction panicked: "+pi.Value, desc)
+			c.Violation(prop+":panic:build:"+pi.Frame+":"+pi.Class, id, "packet construction panicked: "+pi.Value, desc)
 			return
 		}
 		if err != nil {
@@ -265,7 +268,7 @@ func c12Reuse(c *h.Ctx, id string, cs *pkt.Case, r *rand.Rand) {
 			desc["packet_index"] = j
 			desc["wire_at_build"] = h.HexFull(first[j][:min(len(first[j]), 400)])
 			desc["wire_after_later_signing"] = h.HexFull(now[:min(len(now), 400)])
-			c.Violation("C12:packet-changes-after-signer-reuse:"+cs.Kind+":"+cs.Signer, id,
+			c.Violation(prop+":packet-changes-after-signer-reuse:"+cs.Kind+":"+cs.Signer, id,
 				fmt.Sprintf("packet %d of %d built with one signer object changed after the signer signed later packets", j, k), desc)
 			return
 		}
@@ -275,7 +278,7 @@ func c12Reuse(c *h.Ctx, id string, cs *pkt.Case, r *rand.Rand) {
 		}
 		if !c12Independent(cs.Signer, lay.Signed, lay.SigValue) {
 			desc["packet_index"] = j
-			c.Violation("C12:independent-verify-fails:"+cs.Kind+":"+cs.Signer, id, "signature value of a packet built with a reused signer object does not verify (harness crypto)", desc)
+			c.Violation(prop+":independent-verify-fails:"+cs.Kind+":"+cs.Signer, id, "signature value of a packet built with a reused signer object does not verify (harness crypto)", desc)
 			return
 		}
 	}
